@@ -2,7 +2,15 @@
 From Coq Require Import Strings.String Strings.Byte.
 From Coq Require Import List NArith.
 From Goit Require Import Bytes Tree Index Config World Repo MonadFacts BranchFacts TotalFacts.
+From Goit Require Import Bridge.
 Import ListNotations.
+
+(* T0 (tie to the source): every regexp literal of the current Go source denotes
+   the same language, with the same anchoring, as the pattern of the model — proved
+   by running the verified equivalence checker on SrcRegex.v, which is regenerated
+   from /repo on every run (see Bridge.v) *)
+Theorem C18_source_patterns_are_the_models : source_patterns_agree.
+Proof. exact source_patterns. Qed.
 
 (* T1: for EVERY world and EVERY command value the model never reaches a
    panicking site (after the repairs there is none left) *)
@@ -58,3 +66,4 @@ Print Assumptions C18_reset_bad_request.
 Print Assumptions C18_commit_without_identity.
 Print Assumptions C18_branch_family_refusals.
 Print Assumptions C18_binary_search_terminates.
+Print Assumptions C18_source_patterns_are_the_models.
